@@ -42,6 +42,9 @@ const (
 	EpiNone    = iota // no epilogue at all (generator-only checks)
 	EpiMinimal        // just GetToken, exactly what C16 states
 	EpiFull           // GetToken + hooks the engine-B driver uses
+	// EpiFullBoot: EpiFull plus a parse of the empty input from a package-level initialiser (C15 only: a parser that
+	// loops there cannot be stopped by the driver's budgets or watchdog, the driver dies and the check exits 2)
+	EpiFullBoot
 )
 
 type RenderOpts struct {
@@ -536,7 +539,7 @@ func goEpilogue(s *Spec, o RenderOpts) string {
 	if o.Variant.Object {
 		bootInit, bootParse = "c := MakeParserContext()", "c.Parser(\"\")"
 	}
-	if s.NoRec {
+	if s.NoRec || o.Epi != EpiFullBoot {
 		// actions that never call the environment cannot be bounded before the driver's watchdog exists: no boot parse
 		bootInit = "if true {\n\t\treturn \"skipped\"\n\t}\n\t" + bootInit
 	}
